@@ -179,6 +179,7 @@ def _add_size_bound_virtuals(structure, type_definition):
             name=ir_data.NameDefinition(name=ir_data.Word(text=name)),
             existence_condition=expression_parser.parse("true"),
             attribute=[_skip_text_output_attribute()],
+            source_location=type_definition.source_location,
         )
         _mark_as_synthetic(bound_field.read_transform)
         structure.field.extend([bound_field])
@@ -226,6 +227,9 @@ def _add_size_virtuals(structure, type_definition):
             boolean_constant=ir_data.BooleanConstant(value=True)
         ),
         attribute=[_skip_text_output_attribute()],
+        # Errors that involve the size of a structure (dependency cycles, static
+        # references to a non-constant size) point at the structure.
+        source_location=type_definition.source_location,
     )
     structure.field.extend([size_field])
 
